@@ -1077,6 +1077,245 @@ def part_files(acc, arg):
             acc.lib_exception("C14/file/%s" % name, e, case)
 
 
+# ---------------------------------------------------------------------------------------------- parts: the stream dimension
+
+class ChunkStream:
+    """a readable whose read(n) returns at most the next size of a cyclic pattern (pipe / socket / decompressor style)"""
+
+    def __init__(self, data, sizes):
+        self.d = data
+        self.p = 0
+        self.sizes = sizes
+        self.i = 0
+
+    def read(self, n=-1):
+        if n is None or n < 0:
+            n = len(self.d) - self.p
+        k = self.sizes[self.i % len(self.sizes)]
+        self.i += 1
+        b = self.d[self.p:self.p + min(n, k)]
+        self.p += len(b)
+        return b
+
+    def tell(self):
+        return self.p
+
+
+class RawChunks(io.RawIOBase):
+    """the same behaviour through the standard raw-stream protocol (RawIOBase.read may return fewer bytes than asked)"""
+
+    def __init__(self, data, sizes):
+        super().__init__()
+        self.c = ChunkStream(data, sizes)
+
+    def readable(self):
+        return True
+
+    def readinto(self, b):
+        got = self.c.read(len(b))
+        b[:len(got)] = got
+        return len(got)
+
+    def tell(self):
+        return self.c.p
+
+
+CHUNK_PATTERNS = ((1,), (2,), (3,), (5,), (7,), (1, 2, 3), (4, 1), (1 << 30,))
+
+
+def _short_read_scripts():
+    """(kind, [(write(w), read(r) -> value, expected value)...]) ; every script ends with a trailer so over-reads show"""
+    trailer = [(lambda w: w.write_count(300), lambda r: r.read_count(), 300),
+               (lambda w: w.write_string("tr"), lambda r: r.read_string(), "tr"),
+               (lambda w: w.write_byte(0), lambda r: r.read_byte(), 0)]
+    out = []
+    for st in string_alphabet():
+        if _encodable(st):
+            out.append(("string", [(lambda w, st=st: w.write_string(st), lambda r: r.read_string(), st)] + trailer))
+    out.append(("string", [(lambda w, st=st: w.write_string(st), lambda r: r.read_string(), st) for st in ("UTC", "", "ab", "abcde", "é", "Europe/London")] + trailer))
+    for d in ({}, {"a": "b"}, {"": ""}, {"UTC": "Etc/UTC", "Zulu": "Etc/UTC", "é": "€€"}, {"key%d" % i: "v" * (i % 9) for i in range(40)}):
+        out.append(("dictionary", [(lambda w, d=d: w.write_dictionary(d), lambda r: list(r.read_dictionary().items()), list(d.items()))] + trailer))
+    yo = _rule_yos()[1]
+    rec = _ZoneRecurrence("été-time", Offset.from_seconds(3600), mk_yo(yo), 1970, M.INT_MAX)
+    out.append(("recurrence", [(lambda w: rec._write(w), lambda r: _ZoneRecurrence.read(r) == rec, True)] + trailer))
+    m = map_alphabet()[0]
+    mobj = mk_map(m)
+    out.append(("alternating-map", [(lambda w: mobj._write(w), lambda r: _StandardDaylightAlternatingMap._read(r) == mobj, True)] + trailer))
+    for ident, periods, cut, tail in itertools.islice(synthetic_zones(2), 40, 200, 23):
+        z = build_zone("Syn/thetic", periods, cut, tail)
+        steps = len(periods) + (3 if tail else 0)
+        want = walk(z, steps)
+        out.append(("zone", [(lambda w, z=z: z._write(w), lambda r, steps=steps: walk(_PrecalculatedDateTimeZone._read(r, "Syn/thetic"), steps), want)] + trailer))
+    prim = [(lambda w: w.write_milliseconds(-86399970), lambda r: r.read_milliseconds(), -86399970),
+            (lambda w: w.write_signed_count(-70000), lambda r: r.read_signed_count(), -70000),
+            (lambda w: w.write_zone_interval_transition(None, mk_inst(1)), lambda r: inst_val(r.read_zone_interval_transition(None)), 1)]
+    out.append(("primitives", prim + trailer))
+    return out
+
+
+def part_short_reads(acc, _arg):
+    scripts = _short_read_scripts()
+    for kind, script in scripts:
+        buf = io.BytesIO()
+        w = W(buf)
+        for wr, _rd, _exp in script:
+            wr(w)
+        data = buf.getvalue()
+        for sizes in CHUNK_PATTERNS:
+            for cls in (ChunkStream, RawChunks):
+                stream = cls(data, sizes)
+                acc.count(states=1, evaluations=1, transitions=len(script), nontrivial=1 if sizes[0] < 8 else 0)
+                acc.outcome("short-reads:%s" % kind)
+                key = "C14/short-reads/%s" % kind
+                case = {"part": "short-reads", "kind": kind, "bytes": data[:200], "chunk_sizes": list(sizes), "stream": cls.__name__}
+                try:
+                    r = R(stream)
+                    for i, (_wr, rd, exp) in enumerate(script):
+                        got = rd(r)
+                        if got != exp:
+                            acc.violation(key, "over a stream returning at most %r bytes per read, value %d of the sequence is read back as %r instead of %r"
+                                          % (sizes, i, got, exp), case)
+                            break
+                    else:
+                        if stream.tell() != len(data) or r.has_more_data:
+                            acc.violation(key, "over a stream returning at most %r bytes per read the reader consumed %d of %d bytes" % (sizes, stream.tell(), len(data)), case)
+                except Exception as e:  # noqa: BLE001
+                    if exc_origin(e) == "harness":
+                        raise
+                    acc.violation(key, "over a stream returning at most %r bytes per read the reader raised %s(%s) at %s on bytes the writer produced"
+                                  % (sizes, type(e).__name__, str(e)[:100], exc_site(e)), case)
+    # the string-pool field of the real files: 1638 / 1696 inline strings in a row
+    for name, path in nzd_files():
+        data = open(path, "rb").read()
+        _v, fields = F.split(data)
+        pool = F.string_pool(data, fields)
+        pl = F.payload(data, fields[0])
+        for sizes in CHUNK_PATTERNS:
+            stream = ChunkStream(pl, sizes)
+            acc.count(states=1, evaluations=1, transitions=len(pool) + 1, nontrivial=1)
+            acc.outcome("short-reads:file-pool")
+            key = "C14/short-reads/file-pool"
+            try:
+                r = R(stream)
+                n = r.read_count()
+                got = [r.read_string() for _ in range(n)]
+                if got != pool or stream.tell() != len(pl) or r.has_more_data:
+                    bad = next((i for i in range(min(len(got), len(pool))) if got[i] != pool[i]), None)
+                    acc.violation(key, "string pool of %s read over a stream returning at most %r bytes per read: string %r is %r instead of %r (consumed %d of %d bytes)"
+                                  % (name, sizes, bad, got[bad] if bad is not None else None, pool[bad] if bad is not None else None, stream.tell(), len(pl)),
+                                  {"part": "short-reads", "file": name, "chunk_sizes": list(sizes)})
+            except Exception as e:  # noqa: BLE001
+                if exc_origin(e) == "harness":
+                    raise
+                acc.violation(key, "string pool of %s over a stream returning at most %r bytes per read: reader raised %s(%s)" % (name, sizes, type(e).__name__, str(e)[:100]),
+                              {"part": "short-reads", "file": name, "chunk_sizes": list(sizes)})
+
+
+# ---------------------------------------------------------------------------------------------- parts: reader call histories
+
+HIST_OPS = ("more", "byte", "count", "signed", "string", "millis")
+HIST_SYMBOLS = (0x00, 0x01, 0x7F, 0x80, 0xFF)
+HIST_POOL = ["p0", "p1"]
+
+
+def _hist_impl(r, op):
+    if op == "more":
+        return r.has_more_data
+    if op == "byte":
+        return r.read_byte()
+    if op == "count":
+        return r.read_count()
+    if op == "signed":
+        return r.read_signed_count()
+    if op == "string":
+        return r.read_string()
+    return r.read_milliseconds()
+
+
+def _hist_model(d, op):
+    if op == "more":
+        return d.more()
+    if op == "byte":
+        return d.byte()
+    if op == "count":
+        return d.count()
+    if op == "signed":
+        return d.signed()
+    if op == "string":
+        return d.string()
+    return d.millis()
+
+
+def part_reader_histories(acc, arg):
+    """every sequence of <= 3 reader calls starting with `first`, on every stream of <= max_len bytes over HIST_SYMBOLS, against a
+    cursor model: has_more_data never consumes and is idempotent, every read consumes exactly its encoding, a read the bytes
+    cannot satisfy raises; afterwards the remaining bytes are drained and compared."""
+    first, pooled, max_len, depth = arg
+    pool = HIST_POOL if pooled else None
+    streams = [bytes(t) for n in range(0, max_len + 1) for t in itertools.product(HIST_SYMBOLS, repeat=n)]
+    seqs = [(first,) + t for n in range(0, depth) for t in itertools.product(HIST_OPS, repeat=n)]
+    n_exec = n_steps = n_nontriv = 0
+    for data in streams:
+        for seq in seqs:
+            n_exec += 1
+            r = R(io.BytesIO(data), pool)
+            d = M.Dec(data, pool)
+            prev = "start"
+            alive = True
+            for op in seq:
+                n_steps += 1
+                try:
+                    exp = _hist_model(d, op)
+                    exp_raise = False
+                except M.Bad:
+                    exp_raise = True
+                try:
+                    got = _hist_impl(r, op)
+                    raised = None
+                except Exception as e:  # noqa: BLE001
+                    if exc_origin(e) == "harness":
+                        raise
+                    raised = e
+                key = "C14/reader-history/%s/after-%s" % (op, prev)
+                case = {"part": "reader-history", "bytes": data, "calls": list(seq), "pool": pooled}
+                if exp_raise:
+                    if raised is None:
+                        acc.violation(key, "on bytes %s the calls %r: %s returned %r although the bytes cannot satisfy it" % (data.hex(), seq, op, got), case)
+                    alive = False
+                    break
+                if raised is not None:
+                    acc.violation(key, "on bytes %s the calls %r: %s raised %s(%s), the cursor model gives %r"
+                                  % (data.hex(), seq, op, type(raised).__name__, str(raised)[:80], exp), case)
+                    alive = False
+                    break
+                if got != exp or type(got) is not type(exp):
+                    acc.violation(key, "on bytes %s the calls %r: %s returned %r, the cursor model gives %r" % (data.hex(), seq, op, got, exp), case)
+                    alive = False
+                    break
+                prev = op
+            if alive:
+                if "more" in seq and len(seq) > 1:
+                    n_nontriv += 1
+                rest = []
+                try:
+                    for _ in range(len(data) + 2):
+                        if not r.has_more_data:
+                            break
+                        rest.append(r.read_byte())
+                    if bytes(rest) != data[d.p:]:
+                        acc.violation("C14/reader-history/consumed/after-%s" % prev,
+                                      "on bytes %s after the calls %r the reader has %s left, the cursor model %s"
+                                      % (data.hex(), seq, bytes(rest).hex() or "nothing", data[d.p:].hex() or "nothing"),
+                                      {"part": "reader-history", "bytes": data, "calls": list(seq), "pool": pooled})
+                except Exception as e:  # noqa: BLE001
+                    if exc_origin(e) == "harness":
+                        raise
+                    acc.violation("C14/reader-history/consumed/after-%s" % prev, "draining after %r on %s raised %s" % (seq, data.hex(), type(e).__name__),
+                                  {"part": "reader-history", "bytes": data, "calls": list(seq), "pool": pooled})
+    acc.count(states=n_exec, evaluations=n_exec, transitions=n_steps, nontrivial=n_nontriv)
+    acc.outcome("reader-history:first=%s/%s" % (first, "pooled" if pooled else "inline"), n_exec)
+
+
 # ---------------------------------------------------------------------------------------------- driver
 
 PARTS = {
@@ -1084,6 +1323,7 @@ PARTS = {
     "offsets": part_offsets, "transitions": part_transitions_run, "documented-forms": part_documented_forms,
     "strings": part_strings, "dicts": part_dicts, "year-offsets": part_year_offsets, "recurrences": part_recurrences,
     "maps": part_maps, "zones": part_synthetic_zones, "files": part_files,
+    "short-reads": part_short_reads, "reader-histories": part_reader_histories,
 }
 
 
@@ -1132,6 +1372,10 @@ def build_items(tier, seed, notes):
     items.append(("documented-forms", None))
     items.append(("strings", None))
     items.append(("dicts", None))
+    items.append(("short-reads", None))
+    for op in HIST_OPS:
+        items.append(("reader-histories", (op, False, 4, 3 if tier == "quick" else 4)))
+        items.append(("reader-histories", (op, True, 3, 3 if tier == "quick" else 4)))
     for mode in (0, 1, 2):
         for dow in range(8):
             items.append(("year-offsets", (mode, dow)))
@@ -1164,6 +1408,8 @@ def run(ctx):
         "the two .nzd files in the repository are outputs of the reference Noda Time compiler; the model re-encodes all 788 of their "
         "zone fields byte-identically, which is what 'documented compact encoding' is calibrated against",
         "out-of-domain values (count -1 / 2^31, +-86400000 ms, transitions moving backwards) may be rejected by the writer; if accepted they must round-trip",
+        "streams may return fewer bytes than asked (at least one unless at the end): the read side is also run over such streams; "
+        "reader call histories are bounded to 3 (thorough: 4) calls on streams of <= 4 bytes over {00, 01, 7f, 80, ff}",
     ]
     if _BIND_ERROR:
         ctx.degrade("codec classes not reachable (%s): nothing checked" % _BIND_ERROR)
